@@ -487,6 +487,7 @@ pub struct World {
     pub force_cancel: Option<u8>,
     pub hold_acks: bool,
     pub raw_after_connack: Option<Vec<u8>>,
+    pub raw_pieces_after_connack: Option<Vec<Vec<u8>>>,
     pub raw_instead_of_connack: Option<Vec<u8>>,
     /// raw inbound bytes bypass the ledger: C04 expectations are not maintained
     pub raw_mode: bool,
@@ -560,6 +561,7 @@ impl World {
             force_cancel: None,
             hold_acks: false,
             raw_after_connack: None,
+            raw_pieces_after_connack: None,
             raw_instead_of_connack: None,
             raw_mode: false,
             trace_hash: 0x9E3779B97F4A7C15,
@@ -738,8 +740,15 @@ impl World {
                 self.apply_event(Event::Close { conn });
             }
             5 => {
-                let p = vec![0x00u8, 0x00];
-                self.apply_event(Event::Deliver { conn, bytes: p, metas: vec![(2, RxMeta::Garbage)] });
+                // a complete but undecodable packet / a length beyond the receive buffer / a
+                // length field that never terminates
+                let p: Vec<u8> = match self.io_calls_in_op % 3 {
+                    0 => vec![0x00, 0x00],
+                    1 => vec![0x30, 0xFF, 0xFF, 0x7F],
+                    _ => vec![0xD0, 0x80, 0x80, 0x80, 0x80, 0x01],
+                };
+                let n = p.len();
+                self.apply_event(Event::Deliver { conn, bytes: p, metas: vec![(n, RxMeta::Garbage)] });
                 self.apply_event(Event::Close { conn });
             }
             _ => {}
@@ -1133,6 +1142,12 @@ impl World {
                         self.op_label
                     ),
                     format!("{:?} in {}", e, crate::util::hex(&raw)),
+                );
+                // what cannot be decoded is certainly not what the application asked to send
+                self.violate(
+                    "C09",
+                    format!("undecodable/type={}/{}", codec::type_name_of(raw[0] >> 4), err_class(&e)),
+                    format!("the reference decoder rejects the client's packet: {:?} in {}", e, crate::util::hex(&raw)),
                 );
                 self.conns[conn].wire_broken = true;
                 self.cut = true;
